@@ -6,6 +6,7 @@ import "github.com/go-openapi/jsonpointer"
 // (part of setup_cmd): for every string x of up to 3 bytes,
 //   - the executor's model of jsonpointer.Escape agrees with an independent Go model (oesc),
 //   - Unescape(Escape(x)) == x on the Go models (what the fast path Unescape(piece tagged Escape(x)) = x relies on),
+//   - Unescape(Escape(u) + c + Escape(z) + d) == u + c + z + d for '~'-free constants c, d and 1-byte u, z (piecewise fast path),
 //   - an escaped string contains no '/', so the tokens of "/a/b" + "/" + Escape(x) are exactly its rope tokens.
 var _ = vrfRegister("vrfH_SelfEscape", vrfH_SelfEscape)
 
@@ -24,4 +25,9 @@ func vrfH_SelfEscape() {
 	toks := vrfModelTokens("/definitions/" + y)
 	vrfAssert("token-split", len(toks) == 2 && toks[0] == "definitions" && toks[1] == y)
 	vrfCover("a-string-with-tilde-and-slash", len(x) == 3 && x[0] == '~' && x[1] == '/')
+	// piecewise Unescape: a token made of Escape results and '~'-free pieces unescapes piece by piece
+	// (no escape sequence straddles a boundary: an Escape result never ends in a bare '~')
+	// (boundaries only involve the last and first byte of adjacent pieces: 1-byte strings around a 1-byte constant)
+	u, z := vrfStr("u", 1), vrfStr("z", 1)
+	vrfAssert("unescape-is-piecewise-on-escaped-and-plain-pieces", vrfModelUnescape(oesc(u)+"G"+oesc(z)+"1") == u+"G"+z+"1")
 }
